@@ -72,6 +72,12 @@ class Conv:
             return [14, 5, 11 + S.CHUNK_TYPES.index(e[1]), self.e(e[2])]
         if k == 'numchunks':
             return [14, 6, S.CHUNK_TYPES.index(e[1]), self.e(e[2])]
+        if k == 'special':
+            return [16, 0, S.SPECIAL_PROPS.index(e[1])]
+        if k == 'datetime':
+            return [16, 1, S.DATE_TIME.index(e[1])]
+        if k == 'sysprop':
+            return [16, 2, S.SYS_INDEX[e[1]]]
         raise Unsupported('expression kind ' + k)
 
     def target(self, t):
